@@ -41,6 +41,8 @@ LAYOUTS = {
     '4col-band-in-narrow': {'wl': [4.0, 4.1, 4.2, 4.3, 4.4, 4.25], 'bw': [0.05, 0.05, 0.05, 0.05, 0.05, 2.4]},
     # the bin at the high-wavenumber end is far narrower (10 cm-1) than the native spacing there (58 cm-1) and lies
     # 23 cm-1 below the native point whose bin contains it; the other bins are 500-700 cm-1 wide
+    # a narrow channel and a broad band with exactly the same central wavelength (the narrow one listed first)
+    '4col-same-centre': {'wl': [4.0, 4.0, 5.0, 3.5], 'bw': [0.1, 0.9, 0.3, 0.2]},
     '4col-narrow-end': {'wl': [3.377237, 4.347826, 6.25, 10.0], 'bw': [0.011406, 0.95648, 2.42915, 7.977208]},
 }
 
